@@ -1226,6 +1226,10 @@ def ctl_perturbations(attrs):
         mk("ctl-add-unknown-property:%s" % a["k"], lambda x, i=i: xprop(x, i))
     mk("ctl-add:Method", lambda x: x.append({"k": "Method", "v": "GET"}))
     mk("ctl-add:Method-first", lambda x: x.insert(0, {"k": "Method", "v": "GET"}))
+    # @Method is checked as a verb wherever it stands: no value / a verb gleece does not support / no verb at all
+    mk("ctl-add:Method-valueless", lambda x: x.append({"k": "Method", "v": ""}))
+    mk("ctl-add:Method-unsupported-verb", lambda x: x.insert(len(x) // 2, {"k": "Method", "v": "HEAD"}))
+    mk("ctl-add:Method-invalid-verb", lambda x: x.append({"k": "Method", "v": "FETCH"}))
     mk("ctl-add:unknown", lambda x: x.append({"k": "Controller", "v": "main"}))
     mk("ctl-add:unknown-valueless", lambda x: x.insert(0, {"k": "Tagg", "v": ""}))
     mk("ctl-add:Tag-valueless", lambda x: x.append({"k": "Tag", "v": ""}))
